@@ -45,8 +45,14 @@ def assigned_names(stmts):
     return names
 
 
-def havoc(ex, entry, modL, modH, modG, tag):
+def havoc(ex, entry, modL, modH, modG, tag, mutates=()):
+    """state at the head of an arbitrary iteration (or at loop exit).  Heap fields in `mutates` are havocked
+    entirely; the others keep their value on objects that existed at loop entry (an `inv-frame` obligation at the
+    end of the body justifies it) and are arbitrary on objects allocated by earlier iterations."""
     st = entry.copy()
+    grown = V.fresh("loop_allocs", z3.IntSort())
+    st.assume(grown >= 0)
+    st.aptr = z3.simplify(entry.aptr + grown)
     for name in modL:
         if name in st.locals:
             old = st.locals[name]
@@ -57,7 +63,13 @@ def havoc(ex, entry, modL, modH, modG, tag):
             st.locals[name] = nv
             st.settype(nv, t)
     for f in modH:
-        st.heap[f] = z3.Array("HL!%s!%s" % (f, tag), z3.IntSort(), z3.BoolSort() if f.startswith("?") else Val)
+        hav = z3.Array("HL!%s!%s" % (f, tag), z3.IntSort(), z3.BoolSort() if f.startswith("?") else Val)
+        if f in mutates:
+            st.heap[f] = hav
+        else:
+            r = z3.Int("r!loop")
+            base = entry.field_arr(f)
+            st.heap[f] = z3.Lambda([r], z3.If(r < entry.aptr, z3.Select(base, r), z3.Select(hav, r)))
     for g in modG:
         st.ghost[g] = V.fresh("GL_" + g, ex.env.trusted.ghost_sort(g))
     return st
@@ -92,6 +104,16 @@ def oblige(ex, st, kind, label, goal, extra=None):
     name = "%s/%s[%s]" % (ex.env.fn.key, kind, label)
     st.obligations.append(Obligation(name, st.pc, goal, st.sig, kind, label, ex.env.contract.props if ex.env.contract else (),
                                      extra))
+
+
+def loop_frame(ex, s, entry, head, modH, mutates, ordinal):
+    """an iteration does not write the havocked fields on objects that existed at loop entry"""
+    for f in sorted(modH):
+        if f in mutates or f.startswith("?"):
+            continue
+        r = z3.Int("r!lf")
+        goal = z3.Implies(z3.And(r < entry.aptr, r >= 0), z3.Select(s.field_arr(f), r) == z3.Select(head.field_arr(f), r))
+        oblige(ex, s, "inv-frame", "%s#%d" % (f, ordinal), goal)
 
 
 def _spec(ex, stmt):
@@ -142,6 +164,7 @@ def unrolled(ex, st, stmt, items):
 def symbolic_for(ex, st, stmt, it):
     ordinal, spec = _spec(ex, stmt)
     inv = spec.invariant if spec is not None and spec.invariant is not None else None
+    mutates = set(getattr(spec, "mutates", ()) or ()) if spec is not None else set()
     tag = "%d_%d" % (ordinal, V._counter[0])
     entry = st.copy()
     dict_mode = isinstance(it, View) and it.kind == "items"
@@ -175,7 +198,7 @@ def symbolic_for(ex, st, stmt, it):
         | {n_.id for n_ in ast.walk(stmt.target) if isinstance(n_, ast.Name)}
     modH, modG = set(), set()
     for _round in range(6):
-        head = havoc(ex, entry, modL, modH, modG, tag + "_%d" % _round)
+        head = havoc(ex, entry, modL, modH, modG, tag + "_%d" % _round, mutates)
         i = V.fresh("i", z3.IntSort())
         done = V.fresh("done", V.HasArr) if dict_mode else None
         if dict_mode:
@@ -212,6 +235,7 @@ def symbolic_for(ex, st, stmt, it):
         if ctl[0] in (NORMAL, CONTINUE):
             if inv is not None:
                 oblige(ex, s, "inv-preserve", "%s#%d" % (spec.label, ordinal), inv(mkctx(s, i + 1, next_done)))
+            loop_frame(ex, s, entry, head, modH, mutates, ordinal)
             # obligations collected on this path must survive although the path itself ends here
             ex.dead_paths.append(s)
         elif ctl[0] == BREAK:
@@ -219,7 +243,7 @@ def symbolic_for(ex, st, stmt, it):
         else:
             out.append((s, ctl))
     # 3. exit
-    ex_st = havoc(ex, entry, modL, modH, modG, tag + "_x")
+    ex_st = havoc(ex, entry, modL, modH, modG, tag + "_x", mutates)
     if inv is not None:
         ex_st.assume(inv(mkctx(ex_st, n, Val.dhas(it.d) if dict_mode else None)))
     ex_st.sig.append("loop#%d:exit" % ordinal)
@@ -234,6 +258,7 @@ def symbolic_for(ex, st, stmt, it):
 def exec_while(ex, st, stmt):
     ordinal, spec = _spec(ex, stmt)
     inv = spec.invariant if spec is not None and spec.invariant is not None else None
+    mutates = set(getattr(spec, "mutates", ()) or ()) if spec is not None else set()
     tag = "%d_%d" % (ordinal, V._counter[0])
     entry = st.copy()
 
@@ -244,7 +269,7 @@ def exec_while(ex, st, stmt):
     modL, modH, modG = assigned_names(stmt.body), set(), set()
     exits = []
     for _round in range(6):
-        head = havoc(ex, entry, modL, modH, modG, tag + "_%d" % _round)
+        head = havoc(ex, entry, modL, modH, modG, tag + "_%d" % _round, mutates)
         if inv is not None:
             head.assume(inv(mkctx(head)))
         body_results, exits = [], []
@@ -271,6 +296,7 @@ def exec_while(ex, st, stmt):
         if ctl[0] in (NORMAL, CONTINUE):
             if inv is not None:
                 oblige(ex, s, "inv-preserve", "%s#%d" % (spec.label, ordinal), inv(mkctx(s)))
+            loop_frame(ex, s, entry, head, modH, mutates, ordinal)
             ex.dead_paths.append(s)
         elif ctl[0] == BREAK:
             out.append((s, (NORMAL, None)))
